@@ -52,14 +52,6 @@ ProbeSeq == <<WFull, [k \in DOMAIN WFull |-> WFull[Len(WFull) + 1 - k]] \o WFull
 WProbes == {ProbeSeq[i] : i \in 1..WNProbes}
 AllContents == UNION {Contents(n) : n \in WLens}
 
-Setup ==
-    /\ phase = "start"
-    /\ \E t \in WTypes : \E p \in WPlaces : \E ks \in [1..WNObj -> WKinds] : \E as \in [1..WNObj -> AllContents] :
-          /\ sess' = [t |-> t, p |-> p, objs |-> [i \in 1..WNObj |-> [kind |-> ks[i], a |-> as[i]]], steps |-> <<>>]
-          /\ cur' = as
-    /\ memo' = [i \in 1..WNObj |-> <<>>]
-    /\ phase' = "run" /\ UNCHANGED <<outs, store, slots>>
-
 \* ---- the caller's choices -------------------------------------------------------------
 WRev(a) == [k \in DOMAIN a |-> a[Len(a) + 1 - k]]
 WRot(a) == [k \in DOMAIN a |-> a[(k % Len(a)) + 1]]
@@ -70,6 +62,29 @@ WFreshTop(a) == IF WAbsent(a) = {} THEN a[1] ELSE CHOOSE v \in WAbsent(a) : \A w
 \* a few related contents: other orders of the same values, one value exchanged, a repeat
 Trans(a) == {WRev(a), WRot(a), WSorted(a), WRev(WSorted(a)), [a EXCEPT ![1] = a[Len(a)]],
              [a EXCEPT ![1] = WFreshVal(a)], [a EXCEPT ![Len(a)] = WFreshTop(a)]}
+SeedBase(n) == [k \in 1..n |-> VSortSet(WVals)[k]]
+Seeds == UNION {{SeedBase(n)} \cup Trans(SeedBase(n)) \cup UNION {Trans(x) : x \in Trans(SeedBase(n))} : n \in WLens}
+\* the session is set up in stages (few successors each: tlc -simulate draws one)
+SetupRep ==
+    /\ phase = "start"
+    /\ \E t \in WTypes : \E p \in WPlaces : sess' = [sess EXCEPT !.t = t, !.p = p]
+    /\ phase' = "kinds" /\ UNCHANGED <<cur, outs, memo, store, slots>>
+SetupKinds ==
+    /\ phase = "kinds"
+    /\ \E ks \in [1..WNObj -> WKinds] : sess' = [sess EXCEPT !.objs = [i \in 1..WNObj |-> [kind |-> ks[i], a |-> <<>>]]]
+    /\ phase' = "contents" /\ UNCHANGED <<cur, outs, memo, store, slots>>
+\* contents of the next object: anything (Thin: a few seeds; a later object is a twin of the first - the same
+\* contents, the same values in another order, one value exchanged)
+SetupContents ==
+    /\ phase = "contents"
+    /\ \E a \in (IF ~Thin THEN AllContents ELSE IF cur = <<>> THEN Seeds ELSE Trans(cur[1]) \cup {cur[1]}) :
+          /\ cur' = Append(cur, a)
+          /\ sess' = [sess EXCEPT !.objs[Len(cur) + 1].a = a]
+          /\ phase' = IF Len(cur) + 1 = WNObj THEN "run" ELSE "contents"
+    /\ memo' = [i \in 1..WNObj |-> <<>>]
+    /\ UNCHANGED <<outs, store, slots>>
+Setup == SetupRep \/ SetupKinds \/ SetupContents
+
 NewContents(a) == IF Thin THEN Trans(a) \ {a} ELSE Contents(Len(a)) \ {a}
 ReplContents(a) ==
     IF Thin THEN Trans(a) \cup {a}
@@ -81,6 +96,10 @@ Fns(a) == {"match", "match_multi"} \cup (IF AMNonDecreasing(a) THEN {"match_pres
 IsPre(fn) == fn \in {"match_presorted", "match_multi_presorted"}
 Step(op, o, fn, src, a) == [op |-> op, o |-> o, fn |-> fn, src |-> src, a |-> a]
 NStep == Len(sess.steps) + 1
+\* Thin sessions are sequences of turns: at most one caller step, then a call that looks at what it changed
+LastOp == IF sess.steps = <<>> THEN "none" ELSE sess.steps[Len(sess.steps)].op
+CallerMay == ~Thin \/ LastOp = "call"
+CallMay(o) == ~Thin \/ LastOp \notin {"mutate", "replace"} \/ sess.steps[Len(sess.steps)].o = o
 NCalls == Cardinality({k \in DOMAIN sess.steps : sess.steps[k].op = "call"})
 
 \* ---- the mechanism ---------------------------------------------------------------------
@@ -95,7 +114,7 @@ FreshResult(fn, a1, a2) == IF AMHasRepeats(a1) THEN Rejected(fn, a1) ELSE Search
 
 Call ==
     /\ phase = "run" /\ NStep <= WDepth
-    /\ \E o \in 1..WNObj : \E fn \in Fns(cur[o]) : \E src \in 0..WNObj : \E a \in (IF src = 0 THEN WProbes ELSE {<<>>}) :
+    /\ \E o \in {x \in 1..WNObj : CallMay(x)} : \E fn \in Fns(cur[o]) : \E src \in 0..WNObj : \E a \in (IF src = 0 THEN WProbes ELSE {<<>>}) :
          LET a1 == cur[o]
              a2 == IF src = 0 THEN a ELSE cur[src]
              byid == ~IsPre(fn) /\ (CacheMode = "id_noweak" \/ (CacheMode = "readonly_id" /\ sess.objs[o].kind # "rw"))
@@ -117,7 +136,7 @@ Call ==
 StepObs == [fn |-> "step", err |-> "none", i1 |-> <<>>, i2 |-> <<>>, vals |-> <<>>]
 
 Mutate ==
-    /\ phase = "run" /\ NStep <= WDepth
+    /\ phase = "run" /\ NStep <= WDepth /\ CallerMay
     /\ \E o \in 1..WNObj : \E a \in NewContents(cur[o]) :
          /\ sess' = [sess EXCEPT !.steps = Append(@, Step("mutate", o, "", 0, a))]
          /\ cur' = [cur EXCEPT ![o] = a]
@@ -125,7 +144,7 @@ Mutate ==
     /\ UNCHANGED <<phase, memo, store>>
 
 Replace ==
-    /\ phase = "run" /\ NStep <= WDepth
+    /\ phase = "run" /\ NStep <= WDepth /\ CallerMay
     /\ \E o \in 1..WNObj : \E a \in ReplContents(cur[o]) :
          /\ sess' = [sess EXCEPT !.steps = Append(@, Step("replace", o, "", 0, a))]
          /\ cur' = [cur EXCEPT ![o] = a]
@@ -138,7 +157,7 @@ Replace ==
 \* behind them changes - which nobody notices unless the mechanism kept it
 Garbage(out) == [out EXCEPT !.i1 = [j \in DOMAIN @ |-> 9], !.i2 = [j \in DOMAIN @ |-> 9]]
 Scribble ==
-    /\ phase = "run" /\ NStep <= WDepth
+    /\ phase = "run" /\ NStep <= WDepth /\ CallerMay
     /\ \E k \in DOMAIN sess.steps :
          /\ sess.steps[k].op = "call"
          /\ sess' = [sess EXCEPT !.steps = Append(@, Step("scribble", k, "", 0, <<>>))]
@@ -154,10 +173,10 @@ Next == Setup \/ Call \/ Mutate \/ Replace \/ Scribble \/ Finish
 Spec == Init /\ [][Next]_vars
 
 \* ---- the invariant of the world ----------------------------------------------------------
-WorldFresh == phase # "start" => AMSessionFailing(sess, outs) = {}
-SessionsOK == phase # "start" => AMSessionOK(sess)
+WorldFresh == phase \in {"run", "done"} => AMSessionFailing(sess, outs) = {}
+SessionsOK == phase \in {"run", "done"} => AMSessionOK(sess)
 \* the bookkeeping of the machine agrees with the session semantics of ArrayMatch.tla
-CurIsFold == phase # "start" => cur = AMWBefore(AMWContents0(sess), sess.steps, Len(sess.steps) + 1)
+CurIsFold == phase \in {"run", "done"} => cur = AMWBefore(AMWContents0(sess), sess.steps, Len(sess.steps) + 1)
 
 Export == (DoExport /\ phase = "done") => PrintT(<<"SESSION", ToJson(sess)>>)
 =============================================================================
